@@ -277,21 +277,25 @@ func c16Run(c c16Case, o *hx.Obs) {
 		if c.Own != "" {
 			own = " when \"w='on'\";"
 		}
-		m.Extra = "grouping g { leaf y { type string; } leaf y2 {" + own + " type string; } } uses g { when " + dm.QuoteYang(expr) + "; }"
+		// (the grouping also has a choice: what the uses' when guards includes the nodes of its cases)
+		gbody := "leaf y { type string; } leaf y2 {" + own + " type string; } choice gch { case gca { leaf yc { type string; } } leaf ys { type string; } }"
+		m.Extra = "grouping g { " + gbody + " } uses g { when " + dm.QuoteYang(expr) + "; }"
 		m.Top = []*dm.Node{zLeaf(), str("out"), str("w")}
 		if c.Mid != "" {
-			m.Extra = "grouping g { leaf y { type string; } leaf y2 {" + own + " type string; } } grouping g0 { uses g { when \"w2='on'\"; } } uses g0 { when " + dm.QuoteYang(expr) + "; }"
+			m.Extra = "grouping g { " + gbody + " } grouping g0 { uses g { when \"w2='on'\"; } } uses g0 { when " + dm.QuoteYang(expr) + "; }"
 			m.Top = append(m.Top, str("w2"))
 			data["w2"] = map[string]string{"holds": "on", "fails": "off"}[c.Mid]
 			o.Class("the grouping is used through a second uses with a when that %s", c.Mid)
 		}
 		data["y"], data["y2"], data["out"] = "guarded", "g2", "x"
+		data["yc"] = "in-a-case"
 		data["w"] = map[string]string{"": "on", "holds": "on", "fails": "off"}[c.Own]
 		setZ(data, 0)
 		want = dm.CloneTree(data)
 		if !holds[0] || c.Mid == "fails" {
 			delete(want, "y")
 			delete(want, "y2")
+			delete(want, "yc")
 		}
 		if c.Own == "fails" {
 			delete(want, "y2")
@@ -352,7 +356,8 @@ func c16Run(c c16Case, o *hx.Obs) {
 	modelRoot := m.Root()
 	switch c.Placement {
 	case "uses-when":
-		modelRoot = &dm.Node{Kind: "module", Name: "gm", Children: append([]*dm.Node{str("y"), str("y2")}, m.Top...)}
+		gch := &dm.Node{Kind: "choice", Name: "gch", Children: []*dm.Node{{Kind: "case", Name: "gca", Children: []*dm.Node{str("yc")}}, {Kind: "case", Name: "ys", Children: []*dm.Node{str("ys")}}}}
+		modelRoot = &dm.Node{Kind: "module", Name: "gm", Children: append([]*dm.Node{str("y"), str("y2"), gch}, m.Top...)}
 	case "augment-when":
 		modelRoot = &dm.Node{Kind: "module", Name: "gm", Children: []*dm.Node{{Kind: "container", Name: "c", Children: []*dm.Node{zLeaf(), str("out"), str("w"), str("y")}}}}
 	}
@@ -458,7 +463,7 @@ func c16Run(c c16Case, o *hx.Obs) {
 		case "leaf-when":
 			check("", got, nil, []string{"y"}, holds[0])
 		case "uses-when":
-			check("", got, nil, []string{"y", "y2"}, holds[0])
+			check("", got, nil, []string{"y", "y2", "yc"}, holds[0])
 		case "augment-when":
 			if cc, ok := got["c"].(dm.Tree); ok {
 				check("/c", cc, nil, []string{"y"}, holds[0])
@@ -492,7 +497,7 @@ func c16Run(c c16Case, o *hx.Obs) {
 		case c.Placement == "leaf-when":
 			keep, drop = []string{"y", "out"}, []string{zn}
 		case c.Placement == "uses-when":
-			keep, drop = []string{"y", "y2", "out"}, []string{zn, "w", "w2"}
+			keep, drop = []string{"y", "y2", "yc", "out"}, []string{zn, "w", "w2"}
 		case c.Placement == "augment-when":
 			keep, drop = []string{"c/y", "c/out"}, []string{"c/" + zn, "c/w"}
 		case c.Placement == "list-when":
